@@ -25,7 +25,7 @@ struct Outcome {
     sends: Vec<f64>,
 }
 
-async fn run_pattern(contexts: Arc<Contexts>, pattern: Vec<u8>, pre: u8, t: u64, slot: Duration, horizon: Duration) -> Outcome {
+async fn run_pattern(contexts: Arc<Contexts>, pattern: Vec<u8>, pre: u8, t: u64, slot: Duration, horizon: Duration, msg_len: usize) -> Outcome {
     // the connection's clock starts when its context is created (that is where the proxy stamps "last data"):
     // take the harness' zero before that, or a busy scheduler between the two makes a correct close look early
     let start = Instant::now();
@@ -49,7 +49,9 @@ async fn run_pattern(contexts: Arc<Contexts>, pattern: Vec<u8>, pre: u8, t: u64,
         let _ = s_peer.shutdown().await;
         s_open = false;
     }
-    let mut buf = [0u8; 8];
+    let mut buf = [0u8; 256];
+    let cmsg = vec![b'c'; msg_len];
+    let smsg = vec![b's'; msg_len];
     for (i, &ev) in pattern.iter().enumerate() {
         // slot i begins at i*slot
         let due = start + slot * i as u32;
@@ -60,14 +62,14 @@ async fn run_pattern(contexts: Arc<Contexts>, pattern: Vec<u8>, pre: u8, t: u64,
         match ev {
             1 if c_open => {
                 let at = start.elapsed().as_secs_f64();
-                if c_peer.write_all(b"c").await.is_ok() {
+                if c_peer.write_all(&cmsg).await.is_ok() {
                     sends.push(at);
                     let _ = tokio::time::timeout(Duration::from_millis(400), s_peer.read(&mut buf)).await;
                 }
             }
             2 if s_open => {
                 let at = start.elapsed().as_secs_f64();
-                if s_peer.write_all(b"s").await.is_ok() {
+                if s_peer.write_all(&smsg).await.is_ok() {
                     sends.push(at);
                     let _ = tokio::time::timeout(Duration::from_millis(400), c_peer.read(&mut buf)).await;
                 }
@@ -138,7 +140,12 @@ fn check() {
                     if t == 4 && (pre != 0 || p.iter().filter(|&&e| e != 0).count() > if chk.thorough() { 3 } else { 2 }) {
                         continue;
                     }
-                    todo.push((p.clone(), pre, t));
+                    todo.push((p.clone(), pre, t, 1usize));
+                    // the same traffic in messages that fill the relay's buffer exactly (every read of the relay is a full
+                    // one): activity is activity whatever the size of the reads
+                    if pre == 0 && (t == 1 || t == 2) && (chk.thorough() || p.iter().enumerate().all(|(i, &e)| e == 0 || i % 2 == 0)) {
+                        todo.push((p.clone(), pre, t, 64usize));
+                    }
                 }
             }
         }
@@ -146,7 +153,7 @@ fn check() {
         // deadline verdict must not measure the harness
         let mut out = vec![];
         for batch in todo.chunks(6000) {
-            let hs: Vec<_> = batch.iter().map(|(p, pre, t)| tokio::spawn(run_pattern(contexts.clone(), p.clone(), *pre, *t, slot, horizon))).collect();
+            let hs: Vec<_> = batch.iter().map(|(p, pre, t, ml)| tokio::spawn(run_pattern(contexts.clone(), p.clone(), *pre, *t, slot, horizon, *ml))).collect();
             for h in hs {
                 out.push(h.await.expect("pattern task"));
             }
@@ -199,7 +206,7 @@ fn check() {
         "exhaustive": true,
         "states": distinct.len(), "transitions": n * slots as u64, "traces_validated_against_impl": n,
         "evaluations": n, "distinct_nontrivial": closed_idle.load(Ordering::Relaxed),
-        "rule": format!("all 3^{} traffic patterns over half-second slots (silent / client byte / origin byte) x T in {{0,1,2}} s (+ T = 4 s for patterns with at most 2-3 bytes, for the late bound) x pre-state {{open, client half-closed, origin half-closed}} (quick tier thins the T=0 and half-closed families), run concurrently on the real copy_bidi with the real clock. non-trivial = tunnels closed with 'idle timeout'. states = distinct (T, pre-state, result, half-second bucket of the close time)", slots),
+        "rule": format!("all 3^{} traffic patterns over half-second slots (silent / client byte / origin byte) x T in {{0,1,2}} s (+ T = 4 s for patterns with at most 2-3 bytes, for the late bound) x pre-state {{open, client half-closed, origin half-closed}} x message size {{1 byte, exactly the relay's buffer (64 bytes; T in 1..2, open tunnels)}} (quick tier thins the T=0 and half-closed families), run concurrently on the real copy_bidi with the real clock. non-trivial = tunnels closed with 'idle timeout'. states = distinct (T, pre-state, result, half-second bucket of the close time)", slots),
         "patterns": n, "slots": slots, "max_timer_lag_ms": max_lag_ms.load(Ordering::Relaxed),
         "samples": [{"T": 1, "pattern": [1, 0, 2, 0, 0, 0, 0], "expect": "closed between 2.0 s and 4.9 s (1 s after the origin byte at 1.0 s, plus ticker and slack)"}],
     });
